@@ -229,6 +229,7 @@ def run_property(pid, tier, seed):
                     property=pid, part=part.name, kind="oracle",
                     what="the property's predicate is false on what the implementation did",
                     input=small, observation=part.describe_obs(ev1["obs"][0]), original_input=inputs[i]["input"],
+                    first_observation=part.describe_obs(ev["obs"][i]),
                     model_agrees=(not ev1["corr"])))
                 violations.append((path, False))
             if not real and ev["corr"]:
